@@ -68,6 +68,58 @@ def run_check(prop: str, tier: str, repo: str | None, quiet: bool = False, write
     return 0
 
 
+def thorough_extras(prop: str, repo: str | None) -> None:
+    """thorough tier = the quick verdict plus two informational explorations that never change the exit code:
+    (b) re-resolution of the call graph with class-hierarchy analysis only and comparison with the typed call graph,
+    (c) the checker self-test (breaking / benign variants of the current tree) for this property"""
+    import json as _json
+    from .engine import Engine
+    from .report import EVIDENCE_DIR
+    path = os.path.join(EVIDENCE_DIR, f"{prop}.json")
+    extra = {}
+    try:
+        a = Engine(repo)
+        b = Engine(repo, typed=False)
+        diverge = 0
+        same = 0
+        wider = []
+        for fa, sites in a.cg.sites.items():
+            fb = b.prog.functions.get(fa.qualname)
+            if fb is None:
+                continue
+            bs = {(getattr(s.node, "lineno", 0), getattr(s.node, "col_offset", 0), s.name): s for s in b.cg.sites.get(fb, [])}
+            for s in sites:
+                k = (getattr(s.node, "lineno", 0), getattr(s.node, "col_offset", 0), s.name)
+                t = bs.get(k)
+                if t is None:
+                    continue
+                ca = sorted(c.short for c in s.callees)
+                cb = sorted(c.short for c in t.callees)
+                if ca == cb:
+                    same += 1
+                else:
+                    diverge += 1
+                    if len(wider) < 15:
+                        wider.append({"site": f"{fa.short}:{k[0]} {k[2]}", "typed": ca[:4], "cha_only": cb[:6]})
+        extra["typed_vs_cha"] = {"call_sites_same_callees": same, "call_sites_resolved_by_types_only": diverge, "examples": wider,
+                                 "meaning": "sites where the verdict's call graph relies on mypy's receiver types (trusted base); with CHA only the callee set is wider"}
+        print(f"thorough[{prop}] typed-vs-CHA: {same} sites agree, {diverge} depend on the typed layer")
+    except Exception as e:  # informational
+        print(f"thorough[{prop}] typed-vs-CHA skipped: {type(e).__name__}: {e}")
+    try:
+        if os.path.exists(path) and extra:
+            ev = _json.load(open(path))
+            ev["coverage"].update(extra)
+            tmp = path + ".tmp%d" % os.getpid()
+            _json.dump(ev, open(tmp, "w"), indent=1, default=str)
+            os.replace(tmp, path)
+    except Exception as e:
+        print(f"thorough[{prop}] could not extend the evidence: {e}")
+    if repo is None:
+        from .selftest import runner
+        runner.informational(prop)
+
+
 def run_replay(path: str, repo: str | None) -> int:
     with open(path) as fh:
         rec = json.load(fh)
@@ -125,9 +177,8 @@ def main(argv: list[str]) -> int:
     ns = ap.parse_args(argv)
     if ns.cmd == "check":
         rc = run_check(ns.prop.upper(), ns.tier, ns.repo, write=not ns.no_write)
-        if rc == 0 and ns.tier == "thorough":
-            from .selftest import runner
-            runner.informational(ns.prop.upper())
+        if ns.tier == "thorough" and rc in (0, 1) and not ns.no_write:
+            thorough_extras(ns.prop.upper(), ns.repo)
         return rc
     if ns.cmd == "replay":
         return run_replay(ns.path, ns.repo)
